@@ -1,5 +1,6 @@
-"""debug helper: python3 -i dbg.py  -> prog"""
-import sys
-sys.path.insert(0, '/verif')
+import sys, os
+sys.path.insert(0, os.path.dirname(os.path.abspath(__file__)))
 from rbv import facts, mir
-prog = mir.Program(facts.load_workspace())
+def load():
+    crates = facts.load_workspace()
+    return mir.Program(crates)
